@@ -238,6 +238,12 @@ def run(ctx, replay=None):
         if thorough:
             single = [[[f, k + 1, 0]] for f in flagwords for k in range(len(choices))]
             edges = single + [e for e in edges if len(e) > 1]
+        else:
+            # quick: every flag word on every structured set (not the seeded random subsets) once, plus the stripe of the two-step edges
+            nrand = 14
+            structured = [k for k in range(len(choices)) if not (len(choices) - 7 - nrand <= k < len(choices) - 7)]
+            single = [[[f, k + 1, 0]] for f in flagwords for k in structured]
+            edges = single + [e for e in edges if len(e) > 1]
         for preset in presets:
             pre = family_prefix(ctx, fam, info[name], preset)
             for e in edges:
